@@ -69,10 +69,13 @@ def run_case(case):
                 out.append((True, [idx_of(u) for u in n.upstreams], [idx_of(d) for d in n.downstreams]))
         return out
 
+    from streamz.core import RefCounter
+    plain = all(op[1] in ("pipe", "sink", "rsink") for op in case["ops"] if op[0] == "new")
     for op in case["ops"]:
         del log[:]
         del mdlog[:]
         raised = False
+        refc = None
         try:
             k = op[0]
             if k == "new":
@@ -111,6 +114,11 @@ def run_case(case):
                 pending[op[3]] = op[4]
                 if with_md:
                     held[op[1]].emit(op[2], metadata=[{"v": op[2]}])
+                elif plain:
+                    # no node of this history keeps references of its own: whatever the callback does to the graph,
+                    # the emission must give back every reference it took (the owner's one is left)
+                    refc = RefCounter(initial=1)
+                    held[op[1]].emit(op[2], metadata=[{"ref": refc}])
                 else:
                     held[op[1]].emit(op[2])
             elif k == "connect":
@@ -135,6 +143,8 @@ def run_case(case):
         if op[0] == "remit":
             obs[-1]["edit_raised"] = list(edit_exc)
             obs[-1]["edit_done"] = op[3] not in pending
+            if refc is not None:
+                obs[-1]["refs_left"] = refc.count
             pending.clear()
     # cleanup: destroy remaining sinks so the global registry does not grow
     for i in list(held):
